@@ -6,7 +6,7 @@ N=$1; W=/tmp/wt/$N; S=/tmp/seed/$N
 cd $W || exit 2
 DEMO=$(python3 -c "import json;print(json.load(open('$S/meta.json'))['demo_cmd'])")
 echo "demo_cmd: $DEMO"
-git stash -q -u 2>/dev/null; git checkout -q -- . ; git clean -fdq -e target
+git checkout -q -- . ; git clean -fdq -e target
 git apply $S/patch.diff || { echo "PATCH DOES NOT APPLY"; exit 1; }
 if [ -f $S/demo.diff ]; then git apply $S/demo.diff || { echo "DEMO DOES NOT APPLY"; exit 1; }; fi
 cargo build --offline --features verif >/dev/null 2>&1 && echo "build(verif): ok" || echo "build(verif): FAIL"
